@@ -3,16 +3,40 @@ From Coq Require Import ZArith QArith Qabs List.
 From PyqspV Require Import Base.Ops.
 Import ListNotations.
 
+(* Reduction by a Euclidean gcd that uses only Z.modulo / Z.div (which extraction maps to
+   native big-integer operations; Qred's binary gcd on positives is not, and is too slow on
+   3000-bit numbers).  The divisibility test makes correctness independent of the fuel. *)
+Fixpoint gcd_f (f : nat) (a b : Z) : Z :=
+  match f with
+  | O => 1%Z
+  | S f' => if (b =? 0)%Z then Z.abs a else gcd_f f' b (a mod b)%Z
+  end.
+
+Definition qred (q : Q) : Q :=
+  let n := Qnum q in let d := Zpos (Qden q) in
+  let g := gcd_f (S (S (Z.to_nat (2 * Z.log2 d)))) n d in
+  if ((1 <? g) && (n mod g =? 0) && (d mod g =? 0))%Z
+  then match (d / g)%Z with Zpos d' => Qmake (n / g) d' | _ => q end
+  else q.
+
+(* Sum without any gcd when one denominator divides the other (always the case for the
+   dyadic rationals that floats are); general fallback through qred. *)
+Definition qadd (x y : Q) : Q :=
+  let dx := Zpos (Qden x) in let dy := Zpos (Qden y) in
+  if (dy mod dx =? 0)%Z then Qmake (Qnum x * (dy / dx) + Qnum y) (Qden y)
+  else if (dx mod dy =? 0)%Z then Qmake (Qnum x + Qnum y * (dx / dy)) (Qden x)
+  else qred (x + y).
+
 Definition OpsQ : Ops Q := {|
   d0 := 0%Q; d1 := 1%Q;
-  dadd := fun x y => Qred (x + y);
-  dsub := fun x y => Qred (x - y);
-  dmul := fun x y => Qred (x * y);
+  dadd := qadd;
+  dsub := fun x y => qadd x (Qopp y);
+  dmul := Qmult;
   dneg := fun x => Qopp x |}.
 
 Definition Qltb (x y : Q) : bool := match Qcompare x y with Lt => true | _ => false end.
 Definition Qleb (x y : Q) : bool := match Qcompare x y with Gt => false | _ => true end.
 Definition Qeqb (x y : Q) : bool := match Qcompare x y with Eq => true | _ => false end.
 Definition Qmaxl (l : list Q) : Q := fold_right (fun x m => if Qltb m x then x else m) 0%Q l.
-Definition Qsuml (l : list Q) : Q := fold_right (fun x s => Qred (x + s)) 0%Q l.
+Definition Qsuml (l : list Q) : Q := fold_right (fun x s => qadd x s) 0%Q l.
 Definition Qnorm1 (l : list Q) : Q := Qsuml (map Qabs l).
